@@ -23,6 +23,35 @@ theorem cast_ne_zero (a : Nat) : ((a : Int) ≠ 0) ↔ a ≠ 0 := by omega
 
 theorem sub_one_cast {n : Nat} (h : 0 < n) : ((n : Int) - 1) = ((n - 1 : Nat) : Int) := by omega
 
+/-! helper lemmas that do not depend on how the source spells a formula: equivalent canonical forms (`n & -n` for the lowest set
+bit, either operand order of the one-bit test) are normalised to the same statement, so that the refinement theorems below close
+for a semantics-preserving rewrite of the source while a semantic change still breaks them -/
+theorem pyAnd_comm' (a b : Int) : pyAnd a b = pyAnd b a := by
+  cases a <;> cases b <;> simp [pyAnd, Nat.and_comm, Nat.or_comm]
+
+/-- `n & -n` and `(n & (n-1)) ^ n` are the same lowest-set-bit formula -/
+theorem pyAnd_neg_self (n : Nat) : pyAnd (n : Int) (-(n : Int)) = ((Lsb.lsb n : Nat) : Int) := by
+  cases n with
+  | zero => decide
+  | succ k =>
+    show pyAnd (Int.ofNat (k + 1)) (Int.negSucc k) = _
+    simp [pyAnd, natDiff, Lsb.lsb, Nat.xor_comm]
+
+theorem lsb_xor_form (n : Nat) : pyXor (pyAnd (n : Int) ((n : Int) - 1)) (n : Int) = ((Lsb.lsb n : Nat) : Int) := by
+  unfold Lsb.lsb
+  by_cases h : n = 0
+  · subst h; decide
+  · rw [sub_one_cast (by omega), pyAnd_cast, pyXor_cast]
+
+/-- "at most one bit", either operand order, on a cast natural -/
+theorem one_bit_cast (x : Nat) : (pyAnd ((x : Int) - 1) (x : Int) = 0) ↔ ((x - 1) &&& x = 0) := by
+  by_cases hx : x = 0
+  · subst hx; decide
+  · rw [sub_one_cast (by omega), pyAnd_cast]; omega
+theorem one_bit_cast' (x : Nat) : (pyAnd (x : Int) ((x : Int) - 1) = 0) ↔ ((x - 1) &&& x = 0) := by
+  rw [pyAnd_comm']; exact one_bit_cast x
+
+
 /-- the least set bit of a positive number, as an index -/
 theorem low_spec : ∀ n : Nat, 0 < n → ∃ k, Lsb.low n = 1 <<< k ∧ n.testBit k = true ∧ ∀ j, j < k → n.testBit j = false := by
   intro n
@@ -108,19 +137,14 @@ open DendroModel DendroModel.Hier DendroModel.C01.Aux
 theorem normalize_refines (m L lo : Nat) :
     PyBits.normalize_bitmask (m : Int) (L : Int) (lo : Int) = ((Hier.norm L lo m : Nat) : Int) := by
   unfold PyBits.normalize_bitmask Hier.norm
-  simp only [pyAnd_cast, pyAnd_not_cast]
-  by_cases h : m &&& lo = 0
-  · simp [h]
-  · have : ((m &&& lo : Nat) : Int) ≠ 0 := by omega
-    simp [h, this]
+  try simp only [Ext.pyXor_and_self]
+  by_cases h : m &&& lo = 0 <;> simp [pyAnd_cast, pyAnd_not_cast, h]
 
 /-- `bitprocessing.least_significant_set_bit` is `(n &&& (n-1)) ^^^ n`, i.e. the lowest set bit -/
 theorem lsb_refines (n : Nat) :
     PyBits.least_significant_set_bit (n : Int) = ((Lsb.lsb n : Nat) : Int) := by
-  unfold PyBits.least_significant_set_bit Lsb.lsb
-  by_cases h : n = 0
-  · subst h; decide
-  · rw [sub_one_cast (by omega), pyAnd_cast, pyXor_cast]
+  unfold PyBits.least_significant_set_bit
+  first | exact lsb_xor_form n | exact pyAnd_neg_self n
 
 /-- the lowest set bit of a positive mask is a single bit, set in the mask, with nothing set below it -/
 theorem lsb_spec (n : Nat) (h : 0 < n) :
@@ -135,27 +159,9 @@ theorem is_trivial_refines (a f : Nat) :
           || decide ((sdiff f a - 1) &&& sdiff f a = 0)) := by
   unfold PyBits.is_trivial_bitmask
   simp only [pyAnd_cast, pyAnd_not_cast]
-  have e1 : ∀ x : Nat, (pyAnd ((x : Int) - 1) (x : Int) = 0) ↔ ((x - 1) &&& x = 0) := by
-    intro x
-    by_cases hx : x = 0
-    · subst hx; decide
-    · rw [sub_one_cast (by omega), pyAnd_cast]; omega
-  by_cases h0 : a = 0
-  · simp [h0]
-  by_cases hf : a = f
-  · simp [hf]
-  have h0' : ¬ ((a : Int) = 0) := by omega
-  have hf' : ¬ ((a : Int) = (f : Int)) := by omega
-  simp only [h0, hf, h0', hf', decide_false, Bool.false_or, Bool.or_self, Bool.false_eq_true, if_false]
-  by_cases h1 : ((a &&& f) - 1) &&& (a &&& f) = 0
-  · have := (e1 (a &&& f)).mpr h1
-    simp [h1, this]
-  · have : ¬ (pyAnd (((a &&& f : Nat) : Int) - 1) ((a &&& f : Nat) : Int) = 0) := fun hh => h1 ((e1 _).mp hh)
-    by_cases h2 : (sdiff f a - 1) &&& sdiff f a = 0
-    · have h2' := (e1 (sdiff f a)).mpr h2
-      simp [h1, this, h2, h2']
-    · have h2' : ¬ (pyAnd (((sdiff f a : Nat) : Int) - 1) ((sdiff f a : Nat) : Int) = 0) := fun hh => h2 ((e1 _).mp hh)
-      simp [h1, this, h2, h2']
+  by_cases h0 : a = 0 <;> by_cases hf : a = f <;> by_cases h1 : ((a &&& f) - 1) &&& (a &&& f) = 0 <;>
+    by_cases h2 : (sdiff f a - 1) &&& sdiff f a = 0 <;>
+    simp [h0, hf, h1, h2, one_bit_cast, one_bit_cast']
 
 /-- `Bipartition.is_compatible_bitmasks` on masks within a non-empty fill: disjoint, or nested either way
     (the fourth test of the code, `c1 & c2`, is the third again). -/
